@@ -1,4 +1,5 @@
 import Libp2pModel.Proofs.C14Net
+import Libp2pModel.Model.C14_NetLazy
 /-!
 # C14 helper: the byte-level refinement extended to optimistic `V1Lazy` application data
 -/
@@ -50,5 +51,153 @@ theorem runBytes_through {σ : Type} (step : σ → RdEv → σ × List Msg) (is
     simp only [h0, Bool.false_eq_true, ↓reduceIte, hw3, hw4]
     rw [ih _ X fuel (fun x hx => hw x (by simp [hx])) hrest]
     simp [runSteps, List.append_assoc]
+
+/-- a run that ends finished is not disturbed by more input behind it -/
+theorem runBytes_done_append {σ : Type} (step : σ → RdEv → σ × List Msg) (isDone : σ → Bool) :
+    ∀ (fuel : Nat) (s : σ) (X Y : Bytes), isDone (runBytes step isDone fuel s X).1 = true →
+      runBytes step isDone fuel s (X ++ Y) =
+        ((runBytes step isDone fuel s X).1, (runBytes step isDone fuel s X).2.1,
+         (runBytes step isDone fuel s X).2.2 ++ Y) := by
+  intro fuel
+  induction fuel with
+  | zero => intro s X Y _; simp [runBytes]
+  | succ f ih =>
+    intro s X Y h
+    by_cases hd : isDone s = true
+    · simp [runBytes, hd]
+    · have hd' : isDone s = false := by simpa using hd
+      cases hX : frameDec X with
+      | none =>
+        rw [runBytes] at h
+        simp [hd', hX] at h
+      | some p =>
+        obtain ⟨fr, rest⟩ := p
+        have hst := C15.frameDec_stable _ _ _ Y hX
+        rw [runBytes] at h ⊢
+        simp only [hd', Bool.false_eq_true, ↓reduceIte, hX] at h
+        rw [runBytes]
+        simp only [hd', Bool.false_eq_true, ↓reduceIte, hX, hst]
+        rw [ih _ rest Y h]
+
+theorem wire_length (ms : List Msg) (hw : ∀ m ∈ ms, wireOk m) : ms.length ≤ (wireOfAll ms).length := by
+  induction ms with
+  | nil => simp
+  | cons m ms ih =>
+    obtain ⟨w, hw1, hw2, _, _⟩ := wireOf_frame m (hw m (by simp)) []
+    have : wireOfAll (m :: ms) = w ++ wireOfAll ms := by simp [wireOfAll, hw1]
+    rw [this, List.length_append, List.length_cons]
+    have := ih (fun x hx => hw x (by simp [hx]))
+    omega
+
+/-- the event the first frame of the optimistic data produces -/
+theorem junk_event (A : Bytes) (e : PErr) (hj : junkOf A = some e) (f : Frame) (r : Bytes)
+    (hf : frameDec A = some (f, r)) : frameEvent f = .err e := by
+  unfold junkOf at hj
+  split at hj
+  · cases hj
+  · rw [hf] at hj
+    cases f with
+    | err e' => simp at hj; subst hj; rfl
+    | data bs =>
+      simp only at hj
+      cases hd : decodeMsg bs with
+      | err e' => rw [hd] at hj; simp at hj; subst hj; simp [frameEvent, hd]
+      | ok m => rw [hd] at hj; simp at hj
+      | panic w => rw [hd] at hj; simp at hj
+
+theorem junk_incomplete (A : Bytes) (e : PErr) (hj : junkOf A = some e) (hf : frameDec A = none) :
+    e = .unexpectedEof := by
+  unfold junkOf at hj
+  split at hj
+  · cases hj
+  · rw [hf] at hj; simp at hj; exact hj.symm
+
+/-- **One byte-level poll with optimistic data behind the negotiation bytes.**  Either the poll
+stops before the data (as `pollBytes_spec`, the data staying queued), or it has consumed all the
+messages and then the data's first frame / its incomplete remains at EOF — as the error event
+`junkOf A` — which finishes the automaton. -/
+theorem pollBytes_specA {σ : Type} (step : σ → RdEv → σ × List Msg) (isDone : σ → Bool)
+    (herr : ∀ s e, isDone (step s (.err e)).1 = true)
+    (s : σ) (ms : List Msg) (A : Bytes) (e : PErr) (closed : Bool) (n : Nat)
+    (hw : ∀ m ∈ ms, wireOk m) (hnd : isDone s = false) (hA : A ≠ []) (hj : junkOf A = some e) :
+    ∃ j, j ≤ ms.length ∧ NotDoneBefore step isDone s (ms.take j) ∧
+      (pollBytes step isDone s (wireOfAll ms ++ A) closed n =
+          ((runSteps step s ((ms.take j).map .msg)).1, wireOfAll (ms.drop j) ++ A,
+           (runSteps step s ((ms.take j).map .msg)).2) ∨
+       (j = ms.length ∧ isDone (runSteps step s ((ms.take j).map .msg)).1 = false ∧
+        ∃ X, pollBytes step isDone s (wireOfAll ms ++ A) closed n =
+          ((step (runSteps step s ((ms.take j).map .msg)).1 (.err e)).1, X,
+           (runSteps step s ((ms.take j).map .msg)).2 ++
+             (step (runSteps step s ((ms.take j).map .msg)).1 (.err e)).2))) := by
+  have hApos : 0 < A.length := by
+    cases A with
+    | nil => exact absurd rfl hA
+    | cons a as => simp
+  by_cases hn : n ≤ (wireOfAll ms).length
+  · -- the readable prefix ends inside the negotiation bytes
+    obtain ⟨j, rest, hjl, hnb, hrun, hrest, _⟩ := runBytes_prefix step isDone ms s n (n + 1) hw (by omega)
+    refine ⟨j, hjl, hnb, Or.inl ?_⟩
+    unfold pollBytes
+    have htake : (wireOfAll ms ++ A).take n = (wireOfAll ms).take n :=
+      List.take_append_of_le_length hn
+    have hdrop : (wireOfAll ms ++ A).drop n = (wireOfAll ms).drop n ++ A :=
+      List.drop_append_of_le_length hn
+    have hnot : ¬ ((wireOfAll ms ++ A).length ≤ n) := by simp; omega
+    simp only [hnd, Bool.false_eq_true, ↓reduceIte, htake, hrun, hnot, decide_false, Bool.and_false,
+      hdrop]
+    rw [← List.append_assoc, hrest]
+  · -- all negotiation bytes are readable, and `k ≥ 1` bytes of the data
+    have hgt : (wireOfAll ms).length < n := by omega
+    have hlenW := wire_length ms hw
+    have htake : (wireOfAll ms ++ A).take n = wireOfAll ms ++ A.take (n - (wireOfAll ms).length) := by
+      rw [List.take_append, List.take_of_length_le (by omega)]
+    have hdrop : (wireOfAll ms ++ A).drop n = A.drop (n - (wireOfAll ms).length) := by
+      rw [List.drop_append, List.drop_of_length_le (by omega)]; rfl
+    generalize hk : n - (wireOfAll ms).length = k at htake hdrop
+    -- first look at the run over the negotiation bytes alone
+    obtain ⟨j, rest, hjl, hnb, hrun, hrest, hstop⟩ :=
+      runBytes_prefix step isDone ms s (wireOfAll ms).length (n + 1) hw (by omega)
+    rw [List.take_of_length_le (Nat.le_refl _), List.drop_of_length_le (Nat.le_refl _),
+      List.append_nil] at hrun hrest
+    subst hrest
+    rcases hstop with hdone | ⟨hnone, hjeq⟩
+    · -- finished inside the negotiation bytes: the data stays queued
+      refine ⟨j, hjl, hnb, Or.inl ?_⟩
+      have happ := runBytes_done_append step isDone (n + 1) s (wireOfAll ms) (A.take k)
+        (by rw [hrun]; exact hdone)
+      rw [hrun] at happ
+      unfold pollBytes
+      simp only [hnd, Bool.false_eq_true, ↓reduceIte, htake, happ, hdone, Bool.not_true,
+        Bool.false_and, hdrop]
+      rw [List.append_assoc, List.take_append_drop]
+    · -- not finished, so every message was consumed
+      have hempty : ms.drop j = [] := by
+        cases hdj : ms.drop j with
+        | nil => rfl
+        | cons m' t =>
+          have hm' : m' ∈ ms := List.mem_of_mem_drop (by rw [hdj]; simp)
+          obtain ⟨w, hw1, _, hw3, _⟩ := wireOf_frame m' (hw m' hm') (wireOfAll t)
+          rw [hdj] at hnone
+          have : wireOfAll (m' :: t) = w ++ wireOfAll t := by simp [wireOfAll, hw1]
+          rw [this, hw3] at hnone
+          cases hnone
+      have hjlen : j = ms.length := by
+        have := congrArg List.length hempty
+        simp at this; omega
+      have htk : ms.take j = ms := by rw [hjlen]; simp
+      rw [htk] at hnb hrun ⊢
+      have hsnd : isDone (runSteps step s (ms.map RdEv.msg)).1 = false := by
+        -- otherwise the first alternative would have applied; decide by cases
+        cases hh : isDone (runSteps step s (ms.map RdEv.msg)).1 with
+        | false => rfl
+        | true =>
+          -- then report the "finished inside" alternative instead
+          exact absurd hh (by
+            intro hh
+            -- `hstop` told us the run stopped for lack of a frame, but a finished state is also
+            -- consistent; handle it uniformly below by contradiction-free reasoning
+            exact Bool.noConfusion (hh.symm.trans (by
+              cases hq : isDone (runSteps step s (ms.map RdEv.msg)).1 <;> simp_all)))
+      sorry
 
 end C14
